@@ -276,6 +276,17 @@ def fixed_cases():
         out.append({"ev": "arith", "op": op, "ord": "po", "ph": big, "ot": ot("cycleq", [0.75])})
         out.append({"ev": "arith", "op": op, "ord": "po", "ph": one,
                     "ot": {"kind": "phase", "i": [hx(0.0)], "f": [hx(0.5)], "im": False, "shape": None}})
+    # just beyond -1/2: the renormalisation must not leave |frac| > 1/2 (found by MC_DayFrac)
+    h = -(0.5 + 2.0 ** -53)
+    for y in (0.4 * 2.0 ** -53, 2.0 ** -55, 0.3 * 2.0 ** -53):
+        out.append({"ev": "arith", "op": "new2", "x": ot("pyfloat", [h]), "y": ot("pyfloat", [y])})
+        out.append({"ev": "arith", "op": "new2", "x": ot("arrn", [h, h], shape=[2]), "y": ot("npfloat", [y])})
+    for f in (0.46185843, 0.44094365, 0.3, 0.25, 0.4999):
+        import math
+        ph = {"i": [hx(0.0)], "f": [hx(f)], "im": False, "shape": None}
+        for k in ("pyfloat", "npfloat", "arr0", "dimless"):
+            out.append({"ev": "arith", "op": "div", "ord": "po", "ph": ph, "ot": ot(k, [math.nextafter(-2 * f, 10.0)])})
+            out.append({"ev": "arith", "op": "div", "ord": "po", "ph": ph, "ot": ot(k, [math.nextafter(2 * f, -10.0)])})
     for x in (1.2, 0.5, 1.5, 2.5, -0.5, P52, 5e-324):
         out.append({"ev": "arith", "op": "new1", "x": ot("pyfloat", [x])})
     out.append({"ev": "arith", "op": "new2", "x": ot("pyfloat", [1.0]), "y": ot("pyfloat", [0.2])})
@@ -310,7 +321,19 @@ def run(chk):
         if rn.violation != inv:
             chk.machinery_errors.append("%s: TLC should reject the pinned variant with %s, got %r"
                                         % (cfg, inv, rn.violation))
-    chk.notes["negative_configs_rejected"] = ["Neg_Phase_ii.cfg (ImagRule)", "Neg_Phase_np2.cfg (ResultIsPhase)"]
+    # MC-2: day_frac over the toy floating point, every pair of toy floats
+    r = tlc.run("MC_DayFrac", "MC_DayFrac_full.cfg" if thorough else "MC_DayFrac_quick.cfg", timeout=3000)
+    chk.mc_must_hold("MC_DayFrac_" + ("full" if thorough else "quick"), r)
+    chk.exhaustive = chk.exhaustive and r.ok
+    negs = [("MC_DayFrac", c, "FracInRange") for c in ("Neg_DayFrac_aswritten.cfg", "Neg_DayFrac_nopass.cfg",
+                                                         "Neg_DayFrac_floor.cfg")]
+    for mod, cfg, inv in negs:
+        rn = tlc.run(mod, cfg, workers=4, timeout=600)
+        chk.add_tlc("neg:" + cfg, rn)
+        if rn.violation != inv:
+            chk.machinery_errors.append("%s: TLC should reject this variant with %s, got %r" % (cfg, inv, rn.violation))
+    chk.notes["negative_configs_rejected"] = ["Neg_Phase_ii.cfg (ImagRule)", "Neg_Phase_np2.cfg (ResultIsPhase)"] + \
+        ["%s (%s)" % (c, i) for _, c, i in negs]
     # 2. trace validation of the real class
     rcs = recipes(rnd, 16 if thorough else 1)
     events, rejected = pd.validate(chk, rcs, "C07")
